@@ -20,6 +20,7 @@ type Opts struct {
 	AllowNullableEmbed        bool // F3 (scalar children)
 	AllowNullableEmbedComplex bool // F4 (non-scalar children)
 	AllowOneofInEmbedded      bool
+	AllowDurationCastInOneof  bool // F10
 
 	// Biases
 	OneofHeavy   bool // C07
@@ -43,7 +44,7 @@ func (o *Opts) excluded() {
 
 func DefaultOpts() Opts {
 	return Opts{MaxMessages: 7, MaxFields: 9, AllowMapBytes: true, AllowEmptyInCollections: true,
-		AllowNullableEmbed: true, AllowNullableEmbedComplex: true, AllowOneofInEmbedded: true}
+		AllowNullableEmbed: true, AllowNullableEmbedComplex: true, AllowOneofInEmbedded: true, AllowDurationCastInOneof: true}
 }
 
 // Cast types declared in every struct package (local.go).
@@ -303,16 +304,16 @@ func (g *fileGen) field(m *ir.Message, names *nameSet, embedded map[string]bool,
 	}
 	// kind
 	kindSel := rapid.IntRange(0, 19).Draw(t, "kindsel")
-	if o.ScalarDense && kindSel >= 12 && rapid.Bool().Draw(t, "dense") {
-		kindSel = rapid.IntRange(0, 11).Draw(t, "kindsel2")
+	if o.ScalarDense && kindSel >= 10 && rapid.Bool().Draw(t, "dense") {
+		kindSel = rapid.IntRange(0, 9).Draw(t, "kindsel2")
 	}
 	if o.NoTemporal && (kindSel == 16 || kindSel == 17) {
 		kindSel = 0
 	}
 	switch {
-	case kindSel <= 9:
+	case kindSel <= 7:
 		fl.Kind = rapid.SampledFrom(ir.Scalars).Draw(t, "scalar")
-	case kindSel <= 11:
+	case kindSel <= 9:
 		if len(g.f.Enums) > 0 {
 			fl.Kind = ir.KEnum
 			fl.Type = rapid.SampledFrom(g.f.Enums).Draw(t, "enum").Name
@@ -328,7 +329,7 @@ func (g *fileGen) field(m *ir.Message, names *nameSet, embedded map[string]bool,
 		}
 		fl.Kind = ir.KMessage
 		if o.MultiPath && len(c) > 1 && rapid.Bool().Draw(t, "reuse") {
-			// bias to the most recently declared leaf so that it occurs at several paths
+			// bias to one message so that it occurs at several paths
 			fl.Type = c[0]
 		} else {
 			fl.Type = rapid.SampledFrom(c).Draw(t, "msgref")
@@ -366,9 +367,9 @@ func (g *fileGen) field(m *ir.Message, names *nameSet, embedded map[string]bool,
 		}
 	}
 	// embedding
-	pEmb := 3
+	pEmb := 1
 	if o.QualHeavy {
-		pEmb = 1
+		pEmb = 0
 	}
 	if target != nil && fl.Card == ir.Single && !inOneof && len(target.Fields) > 0 && !embedded[fl.Type] &&
 		rapid.IntRange(0, pEmb).Draw(t, "embed?") == 0 && g.canEmbed(m, target, names, fl) {
@@ -421,6 +422,10 @@ func (g *fileGen) field(m *ir.Message, names *nameSet, embedded map[string]bool,
 		if cs := castFor(fl.Kind); len(cs) > 0 && rapid.IntRange(0, p).Draw(t, "cast?") == 0 {
 			fl.CastType = rapid.SampledFrom(cs).Draw(t, "cast")
 			if o.NoTemporal && (fl.CastType == "Duration" || fl.CastType == "time.Duration") {
+				fl.CastType = "MyInt64"
+			}
+			if inOneof && !o.AllowDurationCastInOneof && (fl.CastType == "Duration" || fl.CastType == "time.Duration") {
+				o.excluded()
 				fl.CastType = "MyInt64"
 			}
 		}
